@@ -181,6 +181,93 @@ def l6(led, rid, ctx):
                   "predicate, so a false predicate stays in the reason")
 
 
+PRED = ("lower_bound_predicate", "upper_bound_predicate", "equality_predicate", "disequality_predicate")
+
+
+def l8(led, rid, ctx):
+    """a bound fact stated in a propagator's reason that is read directly from the domain is read
+    from the same variable with the same direction: [x ≥ lb(x)], [x ≤ ub(x)]"""
+    from ..flow import show
+    lib = ctx.lib
+    n = 0
+    for f in lib.fns.values():
+        if "/src/propagators/" not in f.file or "/tests" in f.file or "/nogoods/" in f.file:
+            continue
+        R = resolver(f)
+        for c in f.calls:
+            if c.name not in ("lower_bound_predicate", "upper_bound_predicate") or len(c.args) != 2:
+                continue
+            v = peel(R.operand(c.args[1]), calls=None, casts=False)
+            if not (v.k == "call" and v.a.name in ("lower_bound", "upper_bound") and len(v.a.args) >= 2):
+                continue
+            n += 1
+            x = show(peel(R.operand(c.args[0]), calls=None))
+            y = show(peel(R.operand(v.a.args[-1]), calls=None))
+            same = x == y or root_local(f, c.args[0]) == root_local(f, v.a.args[-1])
+            dir_ok = (c.name == "lower_bound_predicate") == (v.a.name == "lower_bound")
+            root = f.parent or f.defn
+            led.check(same and dir_ok, rid, "%s:[%s %s %s(%s)]" % (root.rsplit("::", 1)[-1], x[-30:],
+                      ">=" if c.name[0] == "l" else "<=", v.a.name, y[-30:]), c.span,
+                      "states a bound of the variable it was read from",
+                      "%s states [%s %s %s(%s)] as a fact: a %s of %s read from the domain does not "
+                      "justify that predicate (it is false unless the variable is fixed / the variables "
+                      "coincide)" % (root.rsplit("::", 1)[-1], x, ">=" if c.name[0] == "l" else "<=",
+                                     v.a.name, y, v.a.name.replace("_", " "), y))
+    led.floor(rid, "direct bound facts in propagators", n, 40)
+
+
+def reason_preds(f, c):
+    cfg = f.cfg
+    back = backward(f, operand_locals(c.args[-1]), effects=True)
+    feeders = [x for x in f.calls if x.dst and x.dst["local"] in back and cfg.dominates(x.bb, c.bb)]
+    us = [x for x in feeders if x.name in ("new_uninit", "exchange_malloc", "new") and "Box" in (x.target_def or "")]
+    start = None
+    if us:
+        start = max(us, key=lambda x: sum(1 for y in us if cfg.dominates(y.bb, x.bb)))
+    return [p for p in f.calls if p.name in PRED and cfg.dominates(p.bb, c.bb) and
+            (start is None or cfg.dominates(start.bb, p.bb))]
+
+
+def l9(led, rid, ctx):
+    """the reason of a propagated bound mentions every domain bound the propagated value was
+    computed from (necessary for sufficiency when the value depends on that bound)"""
+    from ..flow import show
+    lib = ctx.lib
+    n = 0
+    for f in lib.fns.values():
+        if "/src/propagators/arithmetic" not in f.file and "/propagators/element" not in f.file:
+            continue
+        if "/tests" in f.file:
+            continue
+        R = resolver(f)
+        for c in f.calls:
+            if c.name not in ("set_lower_bound", "set_upper_bound") or \
+                    "PropagationContextMut" not in (c.self_ty or "") or len(c.args) != 4:
+                continue
+            val = R.operand(c.args[2])
+            V = set()
+            loopy = False
+            for x in val.calls():
+                if x.name in ("lower_bound", "upper_bound") and len(x.args) >= 2:
+                    vs = show(peel(R.operand(x.args[-1]), calls=None))
+                    if "next(" in vs or "[_" in vs:
+                        loopy = True
+                    V.add((vs, x.name))
+            if loopy or not V:
+                continue      # value computed over a loop: the reason is assembled elsewhere
+            n += 1
+            P = {(show(peel(R.operand(p.args[0]), calls=None)), p.name) for p in reason_preds(f, c)}
+            miss = [(y, k) for (y, k) in sorted(V) if (y, k + "_predicate") not in P and (y, "equality_predicate") not in P]
+            root = f.parent or f.defn
+            led.check(not miss, rid, "%s:%s(%s)" % (root.rsplit("::", 1)[-1], c.name,
+                      ",".join("%s.%s" % (y[-20:], k[0]) for y, k in sorted(V))), c.span,
+                      "every bound the new bound was computed from is stated in the reason",
+                      "%s propagates a bound computed from %s but its reason does not state %s: the "
+                      "explanation is not sufficient for the propagation"
+                      % (root.rsplit("::", 1)[-1], sorted(V), miss))
+    led.floor(rid, "propagation sites with directly read bounds", n, 20)
+
+
 def run(ctx, led):
     run_rule(led, "L1", "propagators/constraints never call the raw domain mutators; the context's "
              "mutators store the reason they are given and pass its reference (WHO-MAY)", l1, ctx)
@@ -195,5 +282,9 @@ def run(ctx, led):
              "C09-R3)", C09.r3, ctx)
     run_rule(led, "L5", "a lazy explanation is independent of the current domains (TAINT with control "
              "dependence from current-state reads into the returned predicates)", l5, ctx)
+    run_rule(led, "L8", "a bound fact read directly from the domain is stated about the variable and "
+             "direction it was read with (sibling discipline of all 48 sites)", l8, ctx)
+    run_rule(led, "L9", "the reason of a propagated bound states every bound the propagated value was "
+             "computed from (44 sites)", l9, ctx)
     run_rule(led, "L6", "a reason assembled from input data outside propagate is filtered to "
              "predicates that hold (instance-specific regression guard)", l6, ctx)
